@@ -1304,6 +1304,44 @@ theorem extend_ok_linkPoints (toU32 : α → Nat) (g : GeoConsts α) (net : List
   · rw [hw]; rfl
   · rw [hw]; exact hsp
 
+/-- **acceptance** of a resolved route, from any state with non-empty vectors; no hypothesis on the
+    links (loop 2 cannot fail once loop 1 has succeeded) -/
+theorem extend_accept_iff (toU32 : α → Nat) (g : GeoConsts α) (net : List (Link α)) (t : Tpc α)
+    (route : List Nat) (links : List (Link α)) (L : List (LinkPt α)) (last : LinkPt α)
+    (hres : Resolves net route links) (hL : t.linkPoints = L ++ [last])
+    (hg : t.grades ≠ []) (hc : t.curves ≠ []) (hs : t.speedPoints ≠ []) :
+    (∃ t', extend toU32 g net t route = .ok t') ↔
+      (∀ i ∈ route, i ≠ 0) ∧ contig (L.getLast?.map (·.linkIdx)) links = true ∧
+      ∃ sp, routeSpeeds toU32 t.par t.speedPoints last.off links = .ok sp := by
+  constructor
+  · rintro ⟨t', h⟩
+    obtain ⟨a, b⟩ := extend_ok_contig toU32 g net h hres hL
+    exact ⟨a, b, _, (extend_ok_linkPoints toU32 g net h hres hL).2⟩
+  · rintro ⟨h0, hcon, sp, hsp⟩
+    rw [extend_of_ne_nil toU32 g net t route (by rw [hL]; simp) hg hc hs]
+    unfold extendCore
+    obtain ⟨t0, hp⟩ : ∃ t0, prelude net t route = .ok t0 := by
+      cases links with
+      | nil => rw [resolves_nil.mp hres]; exact ⟨t, prelude_nil net t⟩
+      | cons l ls =>
+        obtain ⟨i, r, rfl, hl, _⟩ := resolves_cons.mp hres
+        exact prelude_ok_of_first net t i r l hl
+    obtain ⟨hw0, hlen0⟩ := prelude_writes net hp
+    have t0lp : t0.linkPoints = L ++ [last] := by rw [hw0]; exact hL
+    have t0sp : t0.speedPoints = t.speedPoints := by rw [hw0]
+    have t0par : t0.par = t.par := by rw [hw0]
+    have t0cu : t0.curves = t.curves := by rw [hw0]
+    have h1 := (lp_fold_ok_iff toU32 net links route t0 _ L last hres t0lp).mpr
+      ⟨h0, hcon, sp, by rw [t0sp, t0par]; exact hsp, rfl⟩
+    rw [hp, bind_ok, h1, bind_ok]
+    have g1 : t0.grades ≠ [] := by
+      intro h; rw [h] at hlen0; exact hg (List.length_eq_zero_iff.mp hlen0.symm)
+    obtain ⟨s', hs', _⟩ := geo_fold_total g net links route
+      { t0 with speedPoints := sp, linkPoints := L ++ routeLPs last links } hres g1
+      (by rw [show ({ t0 with speedPoints := sp, linkPoints := L ++ routeLPs last links } : Tpc α).curves
+        = t0.curves from rfl, t0cu]; exact hc)
+    exact ⟨s', hs'⟩
+
 /-- `contig` spelled out: the first link against `prev`, then every consecutive pair -/
 theorem contig_iff : ∀ (links : List (Link α)) (prev : Option Nat),
     contig prev links = true ↔
